@@ -42,7 +42,7 @@ def gen(r, tier, i):
     flowless0 = r.random() < 0.2
     return {'cell_ts': r.choice([0.5, 1.0, 1.5, 0.75]), 'dir_as': 'process' if flowless0 else r.choice(['process', 'process', 'step']),
             'initial_flowless': flowless0, 'script': script, 'base': r.choice([[], [], ['env']]),
-            'deriver': r.choice([None, 'steps', 'processes']), 'viewers': r.random() < 0.3, 'poke': r.random() < 0.4, 'nested_cells': r.random() < 0.4,
+            'deriver': r.choice([None, 'steps', 'processes']), 'viewers': r.random() < 0.3, 'poke': r.random() < 0.4, 'nested_cells': r.random() < 0.4, 'gen_legacy': r.random() < 0.3, 'dir_key': r.choice(['dir', 'dir', '0dir']),
             'viewer_ts': 0.5, 'run': run_len, 'extra': 3.0}
 
 
@@ -127,6 +127,13 @@ def run(spec):
             bad = [(a, b) for a, b in zip(times, times[1:]) if b[0] != a[0] + a[1] and b[0] not in restarts]
             V.check('schedule_contiguous', not bad,
                     lambda: ('process %s: consecutive invocations (time, timestep) not contiguous' % tag, bad[:3], sorted(restarts)))
+            # Known finding F2: a process moved (with its compartment) in the middle of an interval is started
+            # again at the time of the move - the update it had in flight is discarded, its intervals overlap
+            again = [(a, b) for a, b in zip(times, times[1:]) if b[0] != a[0] + a[1] and b[0] in restarts]
+            V.check('schedule_contiguous', not again,
+                    lambda: ('process %s was moved in the middle of an interval and started again at the time of the move '
+                             '(its pending update is lost, its intervals overlap): (time, timestep) pairs' % tag, again[:3]),
+                    mechanism='moved-process-restarts')
             if ok and iid not in died:
                 last = times[-1]
                 V.check('schedule_contiguous', last[0] + last[1] == final,
@@ -140,6 +147,7 @@ def run(spec):
     bounds = [i for i, ev in emits]
     prev_i = -1
     prev_w = {}
+    prev_row = None
     for (i, ev), (t, w) in zip(emits, walks):
         ran = {}
         order = []
@@ -151,7 +159,7 @@ def run(spec):
         # steps without flow entries (derivers) run first, one at a time, in declaration order
         kinds = [tg.rsplit('.', 1)[-1] for tg in order]
         last_der = max([k for k, kd in enumerate(kinds) if kd in ('drv', 'drv2')], default=-1)
-        first_flow = min([k for k, kd in enumerate(kinds) if kd in ('f1', 'f2')], default=10 ** 9)
+        first_flow = min([k for k, kd in enumerate(kinds) if kd in ('f0', 'f1', 'f2')], default=10 ** 9)
         pairs_ok = all(order.index(tg[:-1]) < k for k, tg in enumerate(order) if tg.endswith('.drv2') and tg[:-1] in order)
         V.check('derivers_first_in_order', last_der < first_flow and pairs_ok,
                 lambda: ('derivers must run before the flow steps and in declaration order (phase at t=%r)' % t, order))
@@ -186,6 +194,18 @@ def run(spec):
                     V.check('derived_values', st.get('tri') == 3 * st.get('n') and st.get('tri2') == 3 * st.get('n') + 1,
                             lambda: ('row at t=%r, cell %s: n=%r tri=%r tri2=%r (derivers did not run one after the other on this batch)' % (
                                 t, key, st.get('n'), st.get('tri'), st.get('tri2'))))
+                f0 = [iid for iid, rec in w.items() if rec[0] == path + ('f0',)]
+                if f0 and f1 and ran.get(f0[0]) == 1 and ran.get(f1[0]) == 1 and prev_row is not None:
+                    pnode = prev_row
+                    for k in spec['base'] + [port, key]:
+                        pnode = pnode.get(k, {}) if isinstance(pnode, dict) else {}
+                    pst = pnode.get('st') if isinstance(pnode, dict) else None
+                    if isinstance(pst, dict) and 'twice' in pst and prev_w.get(f0[0], (None,))[0] == path + ('f0',) and \
+                            prev_w.get(f1[0], (None,))[0] == path + ('f1',):
+                        # (a clause of C04, harvested by C04's check: the steps of one layer see one state)
+                        V.check('layer_same_snapshot', st.get('lag') == pst['twice'],
+                                lambda: ('row at t=%r, cell %s: lag=%r but twice was %r before this phase (a step of the same layer saw '
+                                         'the other one\'s update)' % (t, key, st.get('lag'), pst['twice'])))
                 h1 = [iid for iid, rec in w.items() if rec[0] == path + ('sub', 'h1')]
                 h2 = [iid for iid, rec in w.items() if rec[0] == path + ('sub', 'h2')]
                 if h1 and h2 and ran.get(h1[0]) == 1 and ran.get(h2[0]) == 1:
@@ -196,7 +216,7 @@ def run(spec):
                     V.check('derived_values', st.get('twice') == 2 * st.get('n') and st.get('quad') == 4 * st.get('n'),
                             lambda: ('row at t=%r, cell %s: n=%r twice=%r quad=%r (steps did not see this batch / ran out of order)' % (
                                 t, key, st.get('n'), st.get('twice'), st.get('quad'))))
-        prev_i, prev_w = i, w
+        prev_i, prev_w, prev_row = i, w, row
     # structural ops and in-flight classification
     for ev in m.events:
         if ev[0] == 'struct':
